@@ -129,6 +129,8 @@ func dumpCases(run *common.Run, dir string, n int) {
 			setup, sel := methodSetup(c)
 			s.renderCaller(c, sel, setup)
 			src = s.source()
+		case "retain":
+			continue
 		case "var":
 			o := implVar(c, newEnv())
 			src = o.Src
